@@ -55,8 +55,18 @@ class FileSystemArtifactStore(SerializedArtifactStore):
         if len(self._get_glob(node_id)):
             raise ArtifactFileAlreadyExists(f'Artifact file for {node_id} already exists')
 
-        with Path(self._ensure_dir() / f'{node_id}.{fmt.value}').open('wb') as file:  # noqa: ASYNC101
-            serializer_factory.from_data_format(fmt).dump(data, file)
+        # JSON is written as text, pickle as bytes
+        mode = 'wb' if fmt == DataFormat.PICKLE else 'w'
+        path = Path(self._ensure_dir() / f'{node_id}.{fmt.value}')
+
+        try:
+            with path.open(mode) as file:  # noqa: ASYNC101
+                serializer_factory.from_data_format(fmt).dump(data, file)
+
+        except Exception:
+            # A failed save must not leave a file behind: the artifact would look saved
+            path.unlink(missing_ok=True)
+            raise
 
     @dont_use_for_prod
     async def load(self, node_id: NodeId) -> NodeResultT:
